@@ -2000,10 +2000,15 @@ func (app *App) repairCascadeNode(node *mysql.Node, clusterState map[string]*nod
 		candidateState := clusterState[upstreamCandidate]
 		candidateNode := app.cluster.Get(upstreamCandidate)
 		var candidateGTIDs gtids.GTIDSet
-		if candidateState.IsMaster {
+		switch {
+		case candidateState.IsMaster && candidateState.MasterState != nil:
 			candidateGTIDs = gtids.ParseGtidSet(candidateState.MasterState.ExecutedGtidSet)
-		} else {
+		case !candidateState.IsMaster && candidateState.SlaveState != nil:
 			candidateGTIDs = gtids.ParseGtidSet(candidateState.SlaveState.ExecutedGtidSet)
+		default:
+			// the candidate's state could not be collected completely in this iteration: its GTIDs are unknown
+			app.logger.Warn().Msgf("repair: GTID set of new stream_from candidate %s is unknown", upstreamCandidate)
+			return
 		}
 		app.logger.Debug().Msgf("repair: %s GTID set = %v, new stream_from GTID set is %v", host, myGTIDs, candidateGTIDs)
 
